@@ -600,13 +600,16 @@ def log_slots(repo, N, trace):
             # A token put back through the loop (call_soon_threadsafe) cannot fall into it; one put back from another thread can.
             e = super().empty()
             if e and self._started and threading.get_ident() == self._loop_thread:
+                self._window.set()
                 time.sleep(0.002)
+                self._window.clear()
             return e
 
         def put_nowait(self, item):
             if self._started:
                 trace.append(['R', item])
             return super().put_nowait(item)
+    LoggingQueue._window = threading.Event()
     q = LoggingQueue(maxsize=N)
     q._started = False
     for slot in range(2, N + 2):
@@ -717,6 +720,105 @@ def validate_slot_traces(rep: Report):
             rep.violations.append({'what': f'{mx} slots out at once with concurrency {N}', 'signature': {'kind': 'too_many_outstanding', 'flavour': case['flavour']},
                                    'replay': case})
     rep.count('slot_events_validated', sum(len(tr) for _, tr, _ in traces))
+
+
+def lost_wakeup_probe(ctx, rep: Report):
+    """The connection-slot pool is an asyncio queue: it may only be touched from the event-loop thread.  Forced schedule for the
+    restore path (one slot, two loader threads, several chunks): a loader thread that has a request for a slot holds it back until
+    the current holder is about to give its slot back; a slot that is handed back by a thread OTHER than the loop's is made to land
+    between the loop's look at the empty pool and the registration of the waiter.  Tokens handed back through the loop (the
+    unchanged code) never get into that position; restore must end and reproduce the file."""
+    import replicat.repository as R
+    from replicat.repository import Repository
+    from harness.memstore import MemBackend
+    for trial in range(2):
+        wd = ctx.scratch / f'c09-lost-wakeup-{trial}-{next(_WD_COUNTER)}'
+        (wd / 'src').mkdir(parents=True)
+        data = ctx.rng.randbytes(64 * 2)           # exactly two chunks: nobody hands a slot back after the second request
+        (wd / 'src' / 'f').write_bytes(data)
+        about_to_put, window = threading.Event(), threading.Event()
+        state = {'loop_thread': None, 'requests': 0, 'lock': threading.Lock()}
+
+        class Pool(asyncio.PriorityQueue):
+            async def get(self):
+                state['loop_thread'] = threading.get_ident()
+                return await super().get()
+
+            def empty(self):
+                e = super().empty()
+                if e and threading.get_ident() == state['loop_thread']:
+                    window.set()
+                    time.sleep(0.005)
+                    window.clear()
+                return e
+
+            def put_nowait(self, item):
+                with state['lock']:
+                    state['requests'] = max(0, state['requests'] - 1)
+                if state['loop_thread'] is not None and threading.get_ident() != state['loop_thread']:
+                    about_to_put.set()
+                    window.wait(0.3)
+                    try:
+                        return super().put_nowait(item)
+                    finally:
+                        about_to_put.clear()
+                return super().put_nowait(item)
+
+        class AsyncioModule:
+            def __getattr__(self, name):
+                return getattr(asyncio, name)
+
+            @staticmethod
+            def run_coroutine_threadsafe(coro, loop):
+                if threading.current_thread() is not threading.main_thread():
+                    with state['lock']:
+                        busy = state['requests'] > 0
+                        state['requests'] += 1
+                    if busy:
+                        about_to_put.wait(0.25)  # hold the request back until the holder is about to hand its slot back
+                return asyncio.run_coroutine_threadsafe(coro, loop)
+
+        be = MemBackend()
+        out = {}
+
+        async def go():
+            r = Repository(be, concurrent=1, quiet=True, cache_directory=None)
+            await r.init(settings={'encryption': None, 'chunking': {'min_length': 64, 'max_length': 64}, 'hashing': {'name': 'blake2b', 'length': 16}})
+            await r.snapshot(paths=[wd / 'src'])
+            r2 = Repository(be, concurrent=1, quiet=True, cache_directory=None)
+            await r2.unlock()
+            pool = Pool(maxsize=1)
+            pool.put_nowait(2)
+            r2._slots = pool
+            (wd / 'out').mkdir()
+            saved = R.asyncio
+            R.asyncio = AsyncioModule()
+            try:
+                await asyncio.wait_for(r2.restore(path=wd / 'out'), 12)
+            finally:
+                R.asyncio = saved
+            t = Path(wd / 'out', *Path(str((wd / 'src' / 'f').resolve())).parts[1:])
+            out['restored'] = t.is_file() and t.read_bytes() == data
+            out['free'] = pool.qsize()
+        try:
+            with contextlib.redirect_stdout(io.StringIO()), contextlib.redirect_stderr(io.StringIO()):
+                asyncio.run(go())
+        except (asyncio.TimeoutError, TimeoutError):
+            out['error'] = 'hang'
+        except Exception as e:
+            out['error'] = f'{type(e).__name__}: {str(e)[:100]}'
+        rep.case(('lost-wakeup', trial), nontrivial=True)
+        rep.count('lost_wakeup_probe')
+        shutil.rmtree(wd, ignore_errors=True)
+        if out.get('error') == 'hang':
+            rep.violations.append({'what': 'restore does not terminate (one slot, two loader threads): a slot handed back while the event loop was between "the pool is '
+                                           'empty" and "the waiter is registered" woke nobody; the waiting loader thread never gets the free slot',
+                                   'signature': {'kind': 'hang', 'probe': 'lost_wakeup'}, 'replay': {'probe': 'lost_wakeup'}})
+            return
+        if out.get('error') or not out.get('restored'):
+            rep.violations.append({'what': f'restore under the forced slot hand-back schedule: {out.get("error") or "restored bytes differ"}',
+                                   'signature': {'kind': 'spurious_error', 'probe': 'lost_wakeup'}, 'replay': {'probe': 'lost_wakeup'}})
+            return
 
 
 def queue_race_probe(ctx, rep: Report):
@@ -895,6 +997,7 @@ def _run(ctx, n_random, n_forced, n_perm, rep):
         r = random.Random(case['order_seed'])
         check(case, ctx, rep, lambda r=r: (lambda n: r.randrange(n)), f'rnd{i}')
     queue_race_probe(ctx, rep)
+    lost_wakeup_probe(ctx, rep)
     validate_slot_traces(rep)
     validate_pipe_traces(rep)
     validate_fin_traces(rep)
@@ -922,6 +1025,11 @@ def replay(ctx, obj):
         return rc
     rep = Report(rule=RULE)
     case = obj.get('replay') or {}
+    if case.get('probe') == 'lost_wakeup':
+        lost_wakeup_probe(ctx, rep)
+        for v in rep.violations:
+            print('VIOLATION-REPRODUCED', v['what'])
+        return 1 if rep.violations else 0
     if 'files' not in case:
         print('replay file carries no C09 case'); return 0
     seed = case['order_seed'] if isinstance(case['order_seed'], int) else 0
